@@ -36,6 +36,8 @@ int g_task_of[MAXT];           // task a worker is running
 int g_maxthreads = 2;
 int g_expiry = -1;
 bool g_update_ops = false;
+bool g_expect_client = false;
+bool g_is_client[MAXT];
 
 void ev(const char *e, int k, int w, int n = 0) { out().line("\"e\":\"%s\",\"k\":%d,\"w\":%d,\"n\":%d", e, k, w, n); }
 
@@ -91,6 +93,29 @@ void owner_op(char op) {
             vs::wait_quiescent("quiesce");
             ev("Quiescent", 0, 0, g_pool->getThreadCount());
             break;
+        case 'M': {
+            // a second client submits tasks while the owner does: start() from two threads at once
+            auto submit = [] {
+                int k = g_next_task++;
+                auto *t = new Task(k);
+                ev("Submit", k, vs::self());
+                g_pool->start(t);
+                ev("StartRet", k, vs::self());
+            };
+            g_expect_client = true;
+            std::thread client([&] {
+                for (int n = 0; n < 3; ++n) {
+                    vs::yield("cop");
+                    submit();
+                }
+            });
+            for (int n = 0; n < 2; ++n) {
+                vs::yield("mop");
+                submit();
+            }
+            client.join();
+            break;
+        }
         case 'G':
             ev("Getters", 0, 0, g_pool->getActiveThreadCount() * 100 + g_pool->getThreadCount());
             break;
@@ -214,8 +239,12 @@ public:
     void op_applied(int thread, vs::OpKind kind, const void *, const void *, const char *, int aux) override {
         if (thread == 0 && kind == vs::OP_NOTIFY_ALL) g_stop_notified = true;
         if (thread == 0 && kind == vs::OP_JOIN && aux >= 0 && aux < MAXT) g_joined[aux] = 1;
-        if (thread > 0 && kind == vs::OP_START) ev("WorkerStart", 0, thread);
-        if (thread > 0 && kind == vs::OP_EXIT) ev("WorkerExit", 0, thread);
+        if (kind == vs::OP_CREATE && g_expect_client && aux >= 0 && aux < MAXT) {
+            g_is_client[aux] = true;
+            g_expect_client = false;
+        }
+        if (thread > 0 && thread < MAXT && !g_is_client[thread] && kind == vs::OP_START) ev("WorkerStart", 0, thread);
+        if (thread > 0 && thread < MAXT && !g_is_client[thread] && kind == vs::OP_EXIT) ev("WorkerExit", 0, thread);
     }
     void enter_fallback(const std::vector<vs::ThreadView> &) override {
         if (!drift.empty()) out().line("\"e\":\"Drift\",\"why\":%s", jstr(drift).c_str());
@@ -245,7 +274,11 @@ void run_exec(const Execution &ex) {
     g_next_task = 1;
     g_next_op = 0;
     g_api = 0;
-    for (int t = 0; t < MAXT; ++t) g_joined[t] = g_task_of[t] = 0;
+    for (int t = 0; t < MAXT; ++t) {
+        g_joined[t] = g_task_of[t] = 0;
+        g_is_client[t] = false;
+    }
+    g_expect_client = false;
     Ctl ctl;
     ctl.max_steps = 20000;
     if (g_scripted) {
